@@ -271,11 +271,17 @@ fn random_case(rng: &mut Rng, max_prec: usize, max_gap: i64) -> Value {
     let base = *rng.pick(&[2u64, 3, 10, 16, 36, 2, 10]);
     let mode = *rng.pick(MODES);
     // precisions: small ones dominate, the tail reaches max_prec
-    let prec = match rng.below(10) {
+    let mut prec = match rng.below(10) {
         0..=3 => 1 + rng.below(6) as usize,
         4..=7 => 1 + rng.below(24.min(max_prec as u64)) as usize,
         _ => 1 + rng.below(max_prec as u64) as usize,
     };
+    // precisions at which the working shift of a short operand is a whole number of machine words (or double words):
+    // 64 k / log2(B) + 0..2 digits - where a power of the base is exactly 2^64, 2^128, 2^192
+    if base.is_power_of_two() && rng.below(10) == 0 {
+        let g = base.trailing_zeros() as usize;
+        prec = 64 * (1 + rng.below(3) as usize) / g + rng.below(3) as usize;
+    }
     let op = *rng.pick(&["add", "add", "add", "sub", "sub", "sub", "mul", "mul", "div", "div", "div", "sqr", "cubic", "inv", "sqrt", "sqrt"]);
     let pick_digits = |rng: &mut Rng| -> usize {
         match rng.below(4) {
@@ -379,6 +385,23 @@ fn random_case(rng: &mut Rng, max_prec: usize, max_gap: i64) -> Value {
                 2 => {
                     bsig = IBig::ONE;
                     kind = "unit-divisor";
+                }
+                3 => {
+                    // a divisor whose significand sits just above a machine-word boundary (2^(64k) + small): its top word is
+                    // tiny, so a remainder of at least half the divisor still has one word fewer - length-based shortcuts of
+                    // the half-way test (round_ratio) decide wrongly exactly here; the dividend is short
+                    let k = 1 + rng.below(2) as usize;
+                    let lim = if rng.coin() { 9 } else { 1 << 30 };
+                    let mut bm = (UBig::ONE << (64 * k)) + UBig::from(1 + rng.below(lim));
+                    if (&bm % UBig::from(base)).is_zero() {
+                        bm += UBig::ONE;
+                    }
+                    bsig = signed(rng, bm);
+                    asig = IBig::from(1 + rng.below(100000) as i64) * if rng.coin() { IBig::ONE } else { IBig::NEG_ONE };
+                    if (asig.clone() % IBig::from(base)).is_zero() {
+                        asig += IBig::ONE;
+                    }
+                    kind = "word-edge-divisor";
                 }
                 _ => {}
             }
